@@ -16,6 +16,7 @@ import (
 	"fmt"
 	"math/rand"
 	"reflect"
+	"runtime/debug"
 	"sort"
 	"strings"
 	"sync"
@@ -86,6 +87,21 @@ type result struct {
 	rows  map[string]interface{}
 	class string // QueryRow: "none" | "one:<key>" | "many"; Query: ""
 	err   error  // unexpected error
+	// panicked: the call panicked (recovered by the harness); stack is the
+	// goroutine stack at the recover
+	panicked bool
+	stack    string
+}
+
+// safeQuery is runQuery with a recover: a panic inside the live query becomes
+// a result instead of killing the rerunner's goroutine (and the process).
+func safeQuery(ctx context.Context, q querier, table string, row bool, filter sqlgen.Filter) (res *result) {
+	defer func() {
+		if p := recover(); p != nil {
+			res = &result{err: fmt.Errorf("panic: %v", p), panicked: true, stack: vlib.Trunc(string(debug.Stack()), 3000)}
+		}
+	}()
+	return runQuery(ctx, q, table, row, filter)
 }
 
 func (r *result) String() string {
@@ -149,7 +165,7 @@ func runQuery(ctx context.Context, q querier, table string, row bool, filter sql
 
 // sameResult compares a live result with the expected one.
 func sameResult(got, want *result) bool {
-	if got == nil || want == nil {
+	if got == nil || want == nil || got.panicked {
 		return false
 	}
 	if want.class != "" || got.class != "" {
@@ -232,6 +248,9 @@ func testerCase(run *vlib.Run, i int) {
 	}
 	for f := 0; f < 6; f++ {
 		fd := genFilter(r, table, n)
+		if table == "wides" && r.Intn(6) == 0 {
+			fd = genWideFilter(r, structs[all.keys[r.Intn(len(all.keys))]].(*Wide))
+		}
 		sel := runQuery(bg, db, table, false, fd.filter)
 		if sel.err != nil {
 			run.Broken(fmt.Sprintf("tester case %d: Query(%s, %s): %v", i, table, fd, sel.err))
@@ -694,8 +713,11 @@ func runHistory(run *vlib.Run, i int, fixed *fixedPlan) {
 
 	// initial contents (before the binlog starts: no events)
 	var maxWide int64
+	var initialWides []*Wide
 	for k := 0; k < 3+r.Intn(5); k++ {
-		h.db.InsertRow(bg, genRow(r, "wides"))
+		w := genWide(r)
+		initialWides = append(initialWides, w)
+		h.db.InsertRow(bg, w)
 		maxWide++
 	}
 	for k := 0; k < 2+r.Intn(4); k++ {
@@ -799,6 +821,11 @@ func runHistory(run *vlib.Run, i int, fixed *fixedPlan) {
 		for j := 0; j < 1+r.Intn(3); j++ {
 			table := tableNames[r.Intn(len(tableNames))]
 			fd := genFilter(r, table, int(maxWide))
+			if r.Intn(12) == 0 {
+				// a wide filter: 9+ SQL arguments, some of them NULL
+				table, fd = "wides", genWideFilter(r, initialWides[r.Intn(len(initialWides))])
+				run.Count("live_wide_null_filters", 1)
+			}
 			if seen[table+fd.String()] {
 				continue
 			}
@@ -823,7 +850,7 @@ func runHistory(run *vlib.Run, i int, fixed *fixedPlan) {
 			atomic.AddInt64(&h.inflight, 1)
 			defer atomic.AddInt64(&h.inflight, -1)
 			for _, q := range qs {
-				res := runQuery(fakesql.WithTag(ctx, q.id), h.ldb, q.table, q.row, q.fd.filter)
+				res := safeQuery(fakesql.WithTag(ctx, q.id), h.ldb, q.table, q.row, q.fd.filter)
 				q.mu.Lock()
 				q.runs++
 				q.last = res
@@ -883,7 +910,7 @@ func runHistory(run *vlib.Run, i int, fixed *fixedPlan) {
 	cond := func() bool {
 		for _, q := range h.queries {
 			q.mu.Lock()
-			ok := sameResult(q.last, want[q.id])
+			ok := sameResult(q.last, want[q.id]) || (q.last != nil && q.last.panicked)
 			q.mu.Unlock()
 			if !ok {
 				return false
@@ -915,7 +942,7 @@ func runHistory(run *vlib.Run, i int, fixed *fixedPlan) {
 	if outcome == vlib.QuiescentNot {
 		for _, q := range h.queries {
 			q.mu.Lock()
-			if !sameResult(q.last, want[q.id]) {
+			if !sameResult(q.last, want[q.id]) && !(q.last != nil && q.last.panicked) {
 				stale = append(stale, staleQuery{q, q.last, q.runs, q.resultSnap})
 			}
 			q.mu.Unlock()
@@ -1008,6 +1035,28 @@ func runHistory(run *vlib.Run, i int, fixed *fixedPlan) {
 		}
 		return w
 	}
+	for _, q := range h.queries {
+		q.mu.Lock()
+		last, runs := q.last, q.runs
+		q.mu.Unlock()
+		if last == nil || !last.panicked {
+			continue
+		}
+		cls := ""
+		if q.fd.wideNull() {
+			cls = "livedb-cache-key-panics-on-wide-null-args"
+		}
+		run.Count("live_query_panicked:"+orUnclassified(cls), 1)
+		idx := i
+		what := "live query panicked instead of holding the rows the database returns for its filter"
+		if fixed != nil {
+			idx, what = -1, "pinned reproducer "+fixed.name+": "+what
+		}
+		run.Violation(idx, cls, map[string]interface{}{
+			"what": what, "history": i, "query": q.describe(), "sql_arguments": len(q.fd.filter), "panic": last.err.Error(),
+			"stack": last.stack, "database_returns": want[q.id].String(), "query_runs": runs,
+		})
+	}
 	switch outcome {
 	case vlib.Reached:
 		if rerunsAfter > int64(50*nRerunners) {
@@ -1062,6 +1111,16 @@ func pinned(run *vlib.Run) {
 	}
 }
 
+// pinnedWide: one live query whose filter has nine columns, one of them nil;
+// no writes at all. LiveDB.query builds its cache key with
+// internal.MakeHashable, whose path for more than 8 elements panics on nil.
+func pinnedWide(run *vlib.Run) {
+	q := &liveQuery{id: 1, table: "wides", fd: filterDesc{
+		filter: sqlgen.Filter{"i8": int8(0), "i16": Rank(0), "i32": int32(0), "u8": uint8(0), "u32": uint32(0), "u64": uint64(0), "flag": false, "name": "zz", "p_i": nil},
+		reps:   map[string]string{"i8": "own", "i16": "own", "i32": "own", "u8": "own", "u32": "own", "u64": "own", "flag": "own", "name": "own", "p_i": "nil"}}}
+	runHistory(run, 1000010, &fixedPlan{name: "wide-null-filter", queries: []*liveQuery{q}, ops: nil, faultAt: map[int]string{}})
+}
+
 func orUnclassified(c string) string {
 	if c == "" {
 		return "unclassified"
@@ -1087,6 +1146,7 @@ func TestCheck(t *testing.T) {
 	defer vlib.Uninstall()
 	run.Each(run.N(600, 200000), 8, func(i int) { testerCase(run, i) })
 	pinned(run)
+	pinnedWide(run)
 	run.Each(run.N(240, 40000), 4, func(i int) { runHistory(run, i, nil) })
 	agg := vlib.NewHitAgg()
 	agg.Add(y)
